@@ -220,7 +220,7 @@ func (o *Obligation) SMT() string {
 	}
 	sort.Strings(ls)
 	used := map[string]bool{}
-	for k := range vc.usedSpecs {
+	for k := range o.UsesSpec {
 		used[k] = true
 	}
 	for _, l := range ls {
